@@ -13,7 +13,7 @@ NOT_APPLICABLE = {}
 
 CHECKS["C04"] = {
     "level": "exploration",
-    "technique": "exhaustive length enumeration + rapid property test; differential against an independent reference codec (round trip, cross decode, byte-for-byte)",
+    "technique": "exhaustive length enumeration + rapid property test; differential against an independent reference codec (round trip, cross decode, byte-for-byte); every record live sessions put on the wire during rapid-generated histories is decoded by that codec",
     "level_text": "Every legal payload length under every method/placement/seq-class is encoded and checked against an independent implementation of the Cloak v2 layout, plus random frames; in both directions (this build's messages under the reference decoder; the reference encoding - with this build's padding and with padding lengths 0, 1, 7, 100 and 255-tag of its own on any sequence number - under this build's decoder); this decides round-trip, size limit and wire compatibility for the whole length domain and samples the 2^104 header/key space.",
     "level_note": "Trusts /verif/kit/refcodec.go as the layout definition and the Go crypto primitives; header/key values are sampled, not enumerated.",
     "exhaustive_claim": True,
@@ -77,7 +77,7 @@ CHECKS["C03"] = {
 
 CHECKS["C12"] = {
     "level": "fault_enumeration",
-    "technique": "rapid-generated base scenarios; a connection reset (preceded by a partial delivery cutting a record in a chosen offset class) or a session Close (optionally racing with other calls) is injected at EVERY operation position of each base scenario; teardown oracle at quiescence (synctest bubble)",
+    "technique": "rapid-generated base scenarios; a connection reset (preceded by a partial delivery cutting a record in a chosen offset class) or a session Close (optionally racing with other calls) is injected at EVERY operation position of each base scenario; teardown oracle at quiescence (synctest bubble); real-time generated workloads for accept-queue overflow, simultaneous closes from both ends and large unread backlogs (progress counter + goroutine-dump criterion)",
     "level_text": "For each generated base scenario the fault is enumerated over every operation boundary and, per fault spec, over connection x offset class (record boundary, TLS header, frame header, payload, tag); after each injection the interpreter drains the network and checks prefix-only delivery, that every parked Read/Write/Accept/Close returned, that OpenStream is refused, that every connection end was closed, and (before the fault) that the active-stream counter equals the model count at every quiescent step; inactivity-timer phases are explored on the virtual clock. A bubble that ends up permanently stuck with a goroutine queued on a lock (which stops the virtual clock) is recognised by a real-time watchdog from two identical goroutine dumps and judged by the same post-fault rules evaluated on the harness' bookkeeping (violation only if a fault or session close had been injected and a blocked call has not returned or a connection was not closed); otherwise exit 2. At layer 3 (real client and server code over the test network) connection attempts fail in six ways during session set-up, including a reply that fails only after sibling connections have joined and a sibling whose reply is delayed past that failure; the established session must either work on six probe streams or be closed. A real-time sub-check closes streams from both ends at the same moment (50-500 per batch, a canary stream stays open) and requires both sessions to count exactly the canary once settled. Another closes the session (Close on either side, connection reset) while 1..1064 peer-opened streams wait un-accepted: the teardown must complete, a late Accept must return, nothing may panic; the peer-initiated case with an overflowing accept queue is the recorded known finding F-C12f (excluded by construction: the application resumes accepting; reproduced once per run).",
     "level_note": "Schedules inside a step are the Go runtime's; under back pressure only one writer per stream is generated (a parked writer holds the stream mutex, which synctest cannot treat as durably blocked).",
     "rule": "base scenario: rapid-drawn config (ordered/unordered, 1..8 conns or singleplex, optional bounded buffers) and <=30 ops; faults: 1..3 specs x every position 0..len(ops). Non-trivial = fault strictly inside a record, or frames had arrived out of order before it, or a goroutine was parked in Read/Write at the fault; distinct = distinct scenarios (each standing for (len(ops)+1) x specs executions, counted in evaluations). UnreadBacklog: {1,8,20,40,70} MiB written to a stream nobody reads, a reader parked on a second stream, 1..3 connections, trigger from {reset, close-receiver, close-sender}; non-trivial = >=8 MiB.",
@@ -96,7 +96,7 @@ CHECKS["C12"] = {
 
 CHECKS["C13"] = {
     "level": "exploration",
-    "technique": "rapid-generated Write/ReadFrom/Close/reset sequences (synctest bubble) plus generated high-contention workloads with real goroutines; oracle = wire tap decoded by the independent reference codec (uniqueness, gap-freedom, write order, closing frame position); thorough tier repeats the stress under -race",
+    "technique": "rapid-generated Write/ReadFrom/Close/reset sequences (synctest bubble) plus generated high-contention workloads with real goroutines; oracle = wire tap decoded by the independent reference codec (uniqueness, gap-freedom, write order, closing frame position); thorough tier repeats the stress under -race; ck-client's main() in-process against server.Serve over loopback with rapid-generated configurations and overlapping proxied connections, decoded under the session keys the server drew",
     "level_text": "Every message the sender put on the wire is decoded with the session key by the reference codec; per (direction, stream) the numbers must be pairwise distinct, 0..n-1 when no send failed, payloads in number order must reproduce each writer's bytes with every Write's frames contiguous, and the closing frame must be numbered after all writes completed before Close. Interleavings are explored by sequential generated histories and by 2..16 goroutines (Write, ReadFrom, Close) hammering one stream of an ordered or unordered session on all cores.",
     "level_note": "Concurrent schedules are sampled by contention (plus the race detector in the thorough tier), not enumerated; a race window that needs a specific nanosecond interleaving may be missed.",
     "rule": "Scenarios: rapid-drawn <=50 ops (write incl. multi-frame, readfrom chunk scripts, close, deliver, reset) over 1..4 streams; non-trivial = >=3 frames on the wire. Stress: 2..16 concurrent writers (Write and ReadFrom) x 20..300 writes each on one stream, optional racing Close, 1..16 concurrent OpenStream; non-trivial = >=2 goroutines on one stream. distinct = distinct scenarios. Program: NumConn from {0,0,0,1,3}, AEAD method, browser, 1..5 proxied connections starting 0..30 ms apart with 1..4 chunks from {1,100,3000,16132,40000} bytes through ck-client's main(); non-trivial = >=2 proxied connections and >=2 client frames decoded.",
@@ -126,7 +126,7 @@ CHECKS["C14"] = {
 
 CHECKS["C19"] = {
     "level": "exploration",
-    "technique": "rapid-generated traffic patterns over 1..3 sessions x 1..4 connections x 1..4 streams of one limited user (valve obtained through userPanel.GetUser / ActiveUser.GetSession), free-running on the synctest virtual clock; every interval between two wire events is checked against the token-bucket bound in O(n)",
+    "technique": "rapid-generated traffic patterns over 1..3 sessions x 1..4 connections x 1..4 streams of one limited user (valve obtained through userPanel.GetUser / ActiveUser.GetSession), free-running on the synctest virtual clock; every interval between two wire events is checked against the token-bucket bound in O(n); the limiter alone at rapid-generated rates from 1 kB/s to 4 GB/s",
     "level_text": "Time is virtual, so every send/receive event has an exact timestamp; for every pair of events (a,b) the bytes in [a,b] must be <= 1.01*rate*(b-a) + one second of burst + one message, across all sessions and connections of the user - sessions admitted one after the other or simultaneously by separate goroutines (GetUser + GetSession each, as the dispatcher does) while the user is not active yet; 30 % of the cases are deep backlogs at 1-20 kB/s with 16+ queued senders and frames worth many seconds of allowance; backlogged senders must reach >= 0.99*rate*T minus burst/in-flight terms.",
     "level_note": "Upload direction is measured where data becomes readable on the server-side streams (payload bytes, after the limiter); download direction at the server's connection writes (the bytes the limiter counted). One writer per stream and direction.",
     "rule": "rapid draws rates from 1 kB/s..10 MB/s, topology, 5..60 virtual seconds and 1..8 writers (size patterns 37 B..16132 B, backlogged or bursty with pauses). Non-trivial = connections of >=2 sessions sent within the same virtual second; distinct = distinct scenarios. Valve: rx/tx rates 10^3..4x10^9 B/s (round, round+odd remainder, arbitrary), 1..4 callers per direction asking for 1/60/1400/16401-byte admissions for 50 ms..4 s of virtual time (<=6000 each), optional idle start; every case non-trivial.",
@@ -156,7 +156,7 @@ CHECKS["C11"] = {
 
 CHECKS["C20"] = {
     "level": "exploration",
-    "technique": "rapid-generated option presence masks and values rendered both as JSON file and as key=value; string (with the \\= escapes of plugin hosts); oracle = table transcribed from README.md + cross-syntax equality; random strings for the no-crash part",
+    "technique": "rapid-generated option presence masks and values rendered both as JSON file and as key=value; string (with the \\= escapes of plugin hosts); oracle = table transcribed from README.md + cross-syntax equality; random strings for the no-crash part; rapid-generated layer-3 and program-level runs observing the options' effect on the wire (server names, browser signature on retries, stream timeout, one session per UDP proxy client)",
     "level_text": "Each generated configuration is parsed through both front ends (results must be equal) and processed; every documented option (NumConn<=0, KeepAlive seconds, StreamTimeout default, Transport/BrowserSig selection observed through the transport actually created, CDN url, AlternativeNames filtering, encryption names) is compared with an independent transcription of the README; incomplete/invalid configurations must yield an error, arbitrary strings must not panic. BrowserSig is checked in effect on every connection attempt of sessions set up under connection faults (each ClientHello must have the shape of a fresh hello of the configured browser; a failed chrome attempt may be retried as firefox, as the client documents). StreamTimeout is also checked in effect on the virtual clock: the value parsed from either syntax is handed to RouteTCP over a test network; a proxy connection whose first data comes before the limit must stay usable in both directions at any later time (up to 5x the period), one that stays silent longer must be closed.",
     "level_note": "The README transcription in harness/internal__client/c20_test.go (c20Table) is the trusted oracle; values containing ';', '\"' or '\\\\' are outside the option-string domain (the front end has no escaping for them once unescaped) and are not generated.",
     "rule": "rapid draws presence (p=0.4..0.95 per option) and representative values for the 19 options incl. NumConn in {-7,-1,0,1,2,4,8}, KeepAlive in {-5,0,1,15,30,3600}, mixed-case names, base64 keys with '=' padding, empty alternative names; every case is non-trivial (both syntaxes + processing); distinct = distinct (presence mask, escaping) pairs. ServerNames: layer-3 scenarios with ServerName from {random, RANDOM, rAnDoM, www.bing.com, a.example.org, randomised.example} and NumConn 0..6; non-trivial = random name over >=3 connections. ProgramNames: ck-client main() with ServerName and 0..4 AlternativeNames from {bing.com, cloudflare.com, github.com, a.example.org, random, RANDOM, Random, randomised.example}, 4..10 proxied connections (singleplex 3 of 4: one session, i.e. one draw, per connection); non-trivial = >=2 distinct names seen. SingleplexUDP: the UDP rig with NumConn from {0,-1}, 2..4 proxy clients with 2..8 datagrams each; every case non-trivial.",
@@ -189,7 +189,7 @@ CHECKS["C18"] = {
 CHECKS["C05"] = {
     "level": "exploration",
     "exhaustive_claim": True,
-    "technique": "exhaustive enumeration of every single and every pair of cut positions for short exchanges + rapid-generated long exchanges with random segmentation/coalescing and generated admission orders of concurrent writers' underlying writes (ticketed network, synctest bubble); list model oracle; oversize records crafted on the raw connection",
+    "technique": "exhaustive enumeration of every single and every pair of cut positions for short exchanges + rapid-generated long exchanges with random segmentation/coalescing and generated admission orders of concurrent writers' underlying writes (ticketed network, synctest bubble); list model oracle; oversize records crafted on the raw connection; layer-3 rig with rapid-generated exact segmentation of the handshake region",
     "level_text": "common.TLSConn and common.WebSocketConn (obtained through a real gorilla Upgrade, both directions) are driven over a network that delivers exactly the generated segments; every Read must return exactly the next whole message of some writer, per-writer order preserved, nothing lost; the order in which concurrent writers' underlying Write calls reach the wire is a generated permutation, so a split header/body write interleaves deterministically; records declaring more than the reader's buffer must yield an error.",
     "level_note": "WebSocket concurrent-writer cases run with free-running goroutines inside the bubble (a goroutine parked while holding the connection's write mutex cannot be scheduled deterministically under synctest).",
     "rule": "Cuts: 6 short exchanges (<=3 messages of 0..130 bytes) x {TLS, WS client->server, WS server->client} x every pair 1<=a<=b<total of cut positions (enumerated). Sampled: rapid-drawn 1..8 writers x 1..6 messages of length 0..16640 (and >16640 for refused writes), <=12 cyclic segment sizes incl. 0=everything, admission schedule of <=40 entries. Oversize: declared length buffer+{1,2,100,45055}. Non-trivial = a message arrived in >=2 segments or >=2 messages arrived in one segment; distinct = distinct (exchange, cut pair) resp. scenarios. HandshakeThenRecords: 1..3 proxied connections through real client and server code (direct and CDN transport, NumConn 0..3); per link 1..14 exact leading segments from {1,2,4,5,6,11,33,60,97,127,128,129,133,134,160,200,333,517,600} bytes in either direction, then free-running segmentation; oracle = byte-exact delivery end to end; every case non-trivial.",
@@ -217,7 +217,7 @@ CHECKS["C06"] = {
 
 CHECKS["C10"] = {
     "level": "exploration",
-    "technique": "rapid-generated full client<->server rigs (all browser signatures, encryption methods, NumConn 0..8, traffic scripts, closes, virtual-clock latencies) with a passive tap on every connection; oracle = independent TLS record / ClientHello / ServerHello parser in /verif/kit/tlsref.go",
+    "technique": "rapid-generated full client<->server rigs (all browser signatures, encryption methods, NumConn 0..8, traffic scripts, closes, virtual-clock latencies) with a passive tap on every connection; oracle = independent TLS record / ClientHello / ServerHello parser in /verif/kit/tlsref.go; the client half again with ck-client's main() in-process over loopback (rapid-generated configurations and traffic)",
     "level_text": "Every byte either side ever wrote on every client<->server connection of the generated sessions is parsed: the client's first flight must be exactly one handshake record (0x0301) with a structurally consistent ClientHello (all length fields add up, 32-byte session id, one server name equal to the configured one or a valid random host name, 32-byte X25519 share); the server must answer ServerHello (session id echoed, consistent) + ChangeCipherSpec + application data; everything after is application-data records (type 23, version 3.3) of length 1..16640 with no trailing partial record.",
     "level_note": "Direct mode only (as the property states). The traffic is whatever the C01 full-rig scripts produce, including stream and session closing notices and inactivity closures.",
     "rule": "rapid draws a client configuration and 1..8 proxy connections with scripts; evaluations counts parsed connections; non-trivial = a rig in which >=1 connection carried data records in both directions after the handshake; distinct = distinct scenarios. Program: ck-client main() with NumConn {0,0,1,3}, any method, ServerName/AlternativeNames from fixed names and the keyword random, 2..6 proxied connections with 1..3 chunks; the client's byte stream of every connection is parsed; non-trivial = >=2 application-data records.",
